@@ -21,4 +21,10 @@ META = {
         "text": "PadInPlace/UnpadInPlace round trip and no-panic on arbitrary input, Prefix/TrimPrefix against a naive byte-wise longest-common-prefix, prng streams compared across chunkings and against the source's little-endian words. Lengths biased to 0, 32k±3 and spare capacity; alphabets include NUL, >=0x80 and invalid UTF-8.",
         "note": "Inputs up to 4 KiB (rapid) / fuzz-engine sized; the oracles assert exactly what the property states (no minimal-length or zero-fill requirement).",
     },
+    "C20": {
+        "engine": "E4 model-based PBT (rapid) over operation sequences; ioproxy inside a synctest bubble", "design_ref": "DESIGN.md §4 C20",
+        "technique": "model-based property testing: generated call sequences with scripted short reads/errors compared step by step with reference models (section reader, byte counter, close-once state machine, map + notification replay); ioproxy traffic checked at synctest quiescence",
+        "text": "Every call's return values are compared with an explicit reference model after every step; the wrapped streams are scripted (short counts, EOF, errors) and log each call so that 'not touched after Close' and 'read issued at the model position' are observable. unique: contents equal the model and the notification log replayed on the previous contents reproduces the new contents.",
+        "note": "ReaderAtSeeker is built with the true size (documented precondition). Scripted streams respect the io.Reader/Writer contract (0 <= n <= len(p)). Removal notifications are only required to name the key.",
+    },
 }
